@@ -172,4 +172,48 @@ def nodeStep (s : Heights) : NodeOp → Heights
   | .commit => commitCut s 3
   | .crash k => restartNode (commitCut s k)
 
+/-! ## Part 5: the flat (kv-mode) world state and its undo log (state/keyvalue.go)
+
+A block commit in kv mode performs, in this order (SaveWAL, then wrappedTrie.Commit per trie): truncate the undo log;
+persist `kvHeight := h` (SetSync); then for every trie of the block — the account trie and each dirty storage trie, whose key
+spaces are disjoint (storage keys carry the account address as prefix) — append the pre-images of the keys it is about to write
+to the undo log (fsync), and only then commit its batch.  At startup NewKeyValueDBWithCache compares kvHeight with the block
+store's height H: equal → nothing to do; H+1 → the undo log is applied (rebuildLastState); 0 → fresh; anything else → panic. -/
+
+abbrev KV := Nat → Nat          -- key ↦ value, 0 = absent
+abbrev Updates := List (Nat × Nat)
+
+structure KvDisk where
+  kv : KV
+  wal : Updates                 -- (key, pre-image) in append order
+  kvh : Nat
+
+inductive KvWrite where
+  | truncate
+  | setHeight (h : Nat)
+  | walAppend (us : Updates)
+  | batch (us : Updates)
+
+def applyUpd (kv : KV) (us : Updates) : KV := us.foldl (fun f p => fun x => if x = p.1 then p.2 else f x) kv
+
+def applyWrite (d : KvDisk) : KvWrite → KvDisk
+  | .truncate => { d with wal := [] }
+  | .setHeight h => { d with kvh := h }
+  | .walAppend us => { d with wal := d.wal ++ us.map (fun p => (p.1, d.kv p.1)) }
+  | .batch us => { d with kv := applyUpd d.kv us }
+
+/-- the durable writes of committing block `h` whose tries carry the given updates -/
+def kvCommitWrites (h : Nat) (tries : List Updates) : List KvWrite :=
+  [.truncate, .setHeight h] ++ tries.flatMap (fun us => [.walAppend us, .batch us])
+
+/-- the disk after a crash that let exactly the first `k` writes through -/
+def kvCrashAt (d : KvDisk) (ws : List KvWrite) (k : Nat) : KvDisk := (ws.take k).foldl applyWrite d
+
+/-- NewKeyValueDBWithCache against block-store height H; `none` = the startup panic -/
+def kvRecover (d : KvDisk) (H : Nat) : Option KvDisk :=
+  if d.kvh = H then some d
+  else if d.kvh = H + 1 then some { d with kv := applyUpd d.kv d.wal }
+  else if d.kvh = 0 then some d
+  else none
+
 end Model.Stores
